@@ -298,3 +298,44 @@ MULTI = register(Stream(
           "generator between every 40 calls); each call's value and state are compared with the Lean model run "
           "on per-object states (frame property); distinct by the full trace line"),
     nontrivial=lambda o, obs: True))
+
+# --------------------------------------------------------------------------------------------
+# allocation faults (separate harness binary psv_alloc: it replaces operator new/delete)
+# --------------------------------------------------------------------------------------------
+def gen_fiter(tier, r):
+    """iterator histories; before some calls the k-th allocation from now is armed to fail"""
+    q = tier == "quick"
+    ops = []
+    for rep in range(25 if q else 250):
+        s0 = r.choice([0, r.randrange(0, 3000), 10**6, 10**9 + r.randrange(0, 10**6), 10**12])
+        ops.append(("fault-history", f"new {s0} {r.choice([UMAX, s0 + 10**5, 0])}"))
+        for _ in range(r.randrange(4, 12)):
+            c = r.random()
+            if c < 0.35:
+                ops.append(("fault-history", f"arm {r.randrange(1, 9)}"))
+                # two failing calls in a row: re-arm immediately after
+                if r.random() < 0.4:
+                    ops += [("fault-history", r.choice(["next", "prev"])), ("fault-history", "arm 1")]
+            d = r.random()
+            if d < 0.5:
+                for _ in range(r.choice([1, 1, 2, 5, 130, 1100])): ops.append(("fault-history", "next"))
+            elif d < 0.85:
+                for _ in range(r.choice([1, 1, 2, 5, 60])): ops.append(("fault-history", "prev"))
+            elif d < 0.93:
+                t = r.randrange(0, 10**8)
+                ops.append(("fault-history", f"jump {t} {UMAX}"))
+            else:
+                ops.append(("fault-history", "clear"))
+        ops.append(("fault-history", "disarm"))
+    return ops
+
+FITER = register(Stream(
+    "fiter", gen_fiter,
+    rule=("cases = single next_prime/prev_prime/jump_to/clear calls of seeded histories on primesieve::iterator during which "
+          "the k-th operator new (k = 1..8 from an arming point, also twice in a row) throws std::bad_alloc; the harness "
+          "replaces global operator new/delete; every value is checked against an exact cursor oracle (a failed call must not "
+          "move the cursor) and value + complete iterator state against the Lean fault model (Iter.nextFault/prevFault); "
+          "non-trivial = every call; distinct by the full trace line"),
+    nontrivial=lambda o, obs: True))
+
+WORKLOADS = ["iterfwd", "iterbwd", "citer", "count1", "countN", "twinsN", "ccount", "gp", "gn", "cgp", "nth", "print"]
